@@ -314,6 +314,11 @@ def hawk_level(ctx, libdir):
         ops = []
         model = ["new"]
         stmts = ["x = hawk::array();"]
+        if rng.random() < 0.4:
+            # start from what str::splita() builds: a fresh array holding the pieces at 1..n (slot 0 empty)
+            vals = [rng.randrange(1, 50) for _ in range(rng.randrange(0, 9))]
+            stmts = ['n0 = str::splita("%s", x); if (n0 != %d) print "splita returned", n0;' % (" ".join(map(str, vals)), len(vals))]
+            model += ["upsert %d %d -" % (k + 1, v) for k, v in enumerate(vals)]
         for _ in range(rng.randrange(1, 7)):
             i = rng.choice([1, 2, 3, 64, 65, 129, 200, 1000, 5000])
             if rng.random() < 0.7:
@@ -345,6 +350,26 @@ def hawk_level(ctx, libdir):
             ctx.problem("impl", "hawk-level array program disagrees with the model (%s): got %r expected %r" % (st, got[:200], exp[:200]),
                         "# run: hawk '<prog>'\n" + prog + "\n# model ops:\n" + "\n".join(model) + "\n", found_input=True)
             break
+    # @argv: the variadic arguments read as an array — @argv[i] is the i-th argument for 0 <= i < @argc and empty beyond,
+    # (i in @argv) holds exactly there, for-in visits every index below @argc once. The ideal array is the argument list.
+    for t in range(10 if ctx.tier == "quick" else 120):
+        n = rng.randrange(0, 13)
+        args = [rng.randrange(1, 99) for _ in range(n)]
+        probes = rng.sample([0, 1, 2, n - 1, n, n + 1, 63, 64, 65, 1000, 2 ** 61 - 1, 2 ** 62, -1], 5)
+        pr = " ".join('v = @argv[%d]; s = s "[" v "]" (%d in @argv);' % (q, q) for q in probes)
+        prog = 'function f(...) { s = @argc ":"; for (k in @argv) { v = @argv[k]; s = s k "=" v ","; } s = s ":"; %s return s; } BEGIN { print f(%s); }' % (pr, ", ".join(map(str, args)))
+        rc, out, err = C.sh(["timeout", "-s", "KILL", "20", hawk, prog], timeout=30, env=C.ASAN_ENV)
+        evals += 1
+        got = out.decode(errors="replace").strip()
+        st = C.classify_rc(rc, err.decode(errors="replace"))
+        parts = got.split(":")
+        okk = (st == "ok" and len(parts) == 3 and parts[0] == str(n)
+               and sorted(x for x in parts[1].split(",") if x) == sorted("%d=%d" % (k, a) for k, a in enumerate(args))
+               and parts[2] == "".join("[%s]%d" % ((args[q], 1) if 0 <= q < n else ("", 0)) for q in probes))
+        if not okk:
+            ctx.problem("impl", "@argv does not read back the argument list (%s): got %r for %d arguments %s, probes %s" % (st, got[:200], n, args, probes),
+                        "# run: hawk '<prog>'\n" + prog + "\n", found_input=True)
+            return evals
     # subscripts no table can hold (the language admits subscripts up to 2^61 - 1): the assignment must end in an error —
     # not in a wedge (one failing allocation per slot of the gap), a freed slot table or a signal
     for idx in (2 ** 40 + 1, 2 ** 50, 2 ** 60, 2 ** 60 + 1, MAXCAPA - 1, MAXCAPA, 2 ** 61 - 1):
@@ -484,7 +509,7 @@ def run(ctx):
     nontriv = len({tuple(b) for b in blocks if nontrivial_signature(b)})
     samples = [" ; ".join(b[:8]) for b in blocks[ncorpus and 1 or 0:][-3:]] + [" ; ".join(blocks[len(blocks) // 2][:10])]
     return C.finish(ctx, [proof], evaluations, nontriv,
-                    "histories = corpus + all 16^3 sequences over a 16-op alphabet + seeded random histories (indices around 0/63..65/127..129/1000/10^6 and size±1, allocator refusal scripts) + random heap histories + heaps with position back-pointers (all 24 push orders of 4 keys x every delete/update/pop, and random histories) + stack push/pop + machine-word extremes (positions/counts/capacities around 2^61, 2^63, 2^64 with scripted refusals) + retry-loop scripts (k refusals then a grant) + hawk-level hawk::array programs; "
+                    "histories = corpus + all 16^3 sequences over a 16-op alphabet + seeded random histories (indices around 0/63..65/127..129/1000/10^6 and size±1, allocator refusal scripts) + random heap histories + heaps with position back-pointers (all 24 push orders of 4 keys x every delete/update/pop, and random histories) + stack push/pop + machine-word extremes (positions/counts/capacities around 2^61, 2^63, 2^64 with scripted refusals) + retry-loop scripts (k refusals then a grant) + hawk-level hawk::array / str::splita programs and @argv reads; "
                     "every op's return value, callback events and full (size,tally,capa,slot table) dump compared with the Lean model; distinct_nontrivial = distinct histories containing growth to index>=128 or a shifting delete after an insert",
                     samples, extra_cov=dict(op_distribution=dist, histories=len(blocks), impl_status=status),
                     trusted=["arr.c modelled by hand in HawkModel/Arr.lean (slot table beyond `size` not modelled; payload = small integers; INLINE copier not exercised)",
